@@ -376,6 +376,9 @@ def g_program(rng, want=None):
 
 def g_history(rng, n, src=""):
     own = sorted(set(re.findall(r"(?:match|when) \(?([A-Z][A-Za-z0-9]*)\(", src)) & set(EVENTS))
+    ks = [int(x) for x in re.findall(r"helper\((\d)\)", src)] or [1, 2, 3, 7]
+    if "Go" in own:
+        own = own + ["Go", "Go"]
     h = []
     for _ in range(n):
         r = rng.random()
@@ -387,7 +390,7 @@ def g_history(rng, n, src=""):
             e = rng.choice(own) if own and rng.random() < 0.7 else rng.choice(EVENTS)
             ev = {"type": e}
             if e == "Go":
-                ev["k"] = rng.choice([1, 2, 3, 7])
+                ev["k"] = rng.choice(ks) if rng.random() < 0.85 else rng.choice([1, 2, 3, 7])
             elif e in ("Ping", "E1", "E2", "E3", "E4"):
                 ev["x"] = rng.choice([1, "s", [1, 2], {"k": "v"}, None])
             h.append(ev)
@@ -536,6 +539,12 @@ def run_ser(case):
         obs["enc_exc"] = _exc_kind(e)
         obs["enc_msg"] = str(e)[:120]
         return obs
+    try:
+        lab, ids = pv.to_lab(obj)
+        obs["lab"] = lab
+        obs["skeleton"] = pv.enc_skeleton(d, ids)
+    except Exception:  # noqa  -- e.g. raw action payloads the abstract model does not traverse
+        pass
     parsed = json.loads(text)
     if '"__id"' not in text:
         obs["enc"] = pv.plain_json_to_model(parsed)
@@ -892,7 +901,10 @@ def run_e2e(case):
 
 def model_requests(case, obs):
     if case["kind"] == "ser":
-        return [{"m": "C11.ser", "v": obs["seen"]}]
+        reqs = [{"m": "C11.ser", "v": obs["seen"]}]
+        if "lab" in obs:
+            reqs.append({"m": "C11.refs", "t": obs["lab"]})
+        return reqs
     if case["kind"] == "cleanup":
         return [{"m": "C11.cleanup", "now": case["now"], "flows": case["flows"], "idx": case["idx"], "actions": case["actions"]}]
     return []
@@ -920,6 +932,13 @@ def compare(case, obs, mouts):
             return "decoded value differs: impl " + json.dumps(obs["dec"])[:300] + " model " + json.dumps(m["dec"]["ok"])[:300]
         if m["encodable"] and pv.canon(m["dec"]["ok"]) != pv.canon(obs["seen"]):
             return "model: Encodable but round trip not identity (theorem roundtrip_tree contradicted by the driver?)"
+        if len(mouts) > 1 and "skeleton" in obs:
+            # T2 tie: which occurrence is a definition, which a reference (and to what), which definitions carry an __id
+            d = pv.skeleton_diff(obs["skeleton"], mouts[1]["enc"])
+            if d:
+                return "encoder refs discipline differs from Refs.encodeS: " + d
+            if not mouts[1]["decodes"]:
+                return "model: Refs.decodeS fails on Refs.encodeS output"
         return None
     if case["kind"] == "cleanup":
         if "exc" in obs:
@@ -1073,31 +1092,34 @@ def _action_nonjson(j):
 
 
 def signature(case, obs, msg):
+    """Region of an open finding, decided from the *structure of the input / reached state* (not from the
+    symptom), so that a later repair of the defect does not turn into a model-vs-code alarm."""
     k = case["kind"]
     if k == "ser":
         seen = obs.get("seen")
-        if "enc_exc" in obs:
-            if obs["enc_exc"] == "unhandled":
-                m = obs.get("enc_msg", "")
-                if "re.Pattern" in m:
-                    return "state-holds-regex"
-                if "ComparisonExpression" in m:
-                    return "state-holds-comparison"
-                return None
-            if obs["enc_exc"] == "typeError":
-                if _pv_has(seen, _action_nonjson):
-                    return "action-payload-not-json"
-                if _pv_has(seen, _nonstr_key):
-                    return "dict-with-non-string-keys"
+        if seen is None and "seen" not in obs:
             return None
-        if "dec_exc" in obs:
-            return "action-payload-not-json" if _pv_has(seen, _action_nonjson) else None
-        if "differs" in msg or "model" in msg or "decoded" in msg:
-            if _pv_has(seen, _action_nonjson):
-                return "action-payload-not-json"
-            if _pv_has(seen, _nonstr_key):
+        is_corr = msg.startswith(("encoder", "encoded JSON", "decoder:", "decoded value", "model:"))  # incl. "encoder refs discipline"
+        if not is_corr:  # an oracle failure names its symptom: prefer it when several regions overlap
+            if "two separate lists" in msg:
+                return "aliased-list"
+            if "re.Pattern" in msg:
+                return "state-holds-regex"
+            if "ComparisonExpression" in msg:
+                return "state-holds-comparison"
+            if "keys must be" in msg:
                 return "dict-with-non-string-keys"
-        if "two separate lists" in msg:
+            if "not JSON serializable" in msg:
+                return "action-payload-not-json"
+        if _pv_has(seen, lambda j: isinstance(j, dict) and "r" in j):
+            return "state-holds-regex"
+        if _pv_has(seen, lambda j: isinstance(j, dict) and "c" in j):
+            return "state-holds-comparison"
+        if _pv_has(seen, _action_nonjson):
+            return "action-payload-not-json"
+        if _pv_has(seen, _nonstr_key):
+            return "dict-with-non-string-keys"
+        if obs.get("aliased_lists"):
             return "aliased-list"
         return None
     if k == "cleanup":
@@ -1150,6 +1172,8 @@ def tags(case, obs):
             t.append("aliased-list")
         if "enc" in obs:
             t.append("json-level-compared")
+        if "skeleton" in obs:
+            t.append("refs-skeleton-compared")
     elif k == "cleanup":
         if "exc" in obs:
             t.append("exc:" + obs["exc"])
